@@ -259,6 +259,17 @@ fn main() {
             let spec = world::ProcSpec { entropy: 1, readdir: 1, ..Default::default() };
             let (sum, _, _) = ops::run_main(&sb, &spec, false);
             println!("whole: {} {} {:?} {}", sum.class, sum.kind, sum.diagnostics, sum.message.chars().take(200).collect::<String>());
+            let bare = ops::run_main_bare(&sb, &spec);
+            println!("bare:  {} {} {:?} {}", bare.class, bare.kind, bare.diagnostics, bare.message.chars().take(200).collect::<String>());
+            if bare.go_text != sum.go_text {
+                for (a, b) in sum.go_text.lines().zip(bare.go_text.lines()) {
+                    if a != b {
+                        println!("first difference:\n  abs : {a}\n  bare: {b}");
+                        break;
+                    }
+                }
+                println!("lengths {} vs {}", sum.go_text.len(), bare.go_text.len());
+            }
             let layout = ops::Layout::scan(&files);
             match layout.topo(&mut prng::Prng::new(1)) {
                 Some(order) => {
